@@ -64,6 +64,17 @@ theorem C19_expand_map_wf (h : L → Bool) (nodes : List (Node L C))
   rw [← hf]
   exact exact_wf hE
 
+/-- **`Calibrations::expand_with_detail`** (the instruction-level entry point, before anything is hoisted):
+for EVERY expansion tree the new instructions are the leaves in order, the range is `0..len`, and the
+detail's entries are a well-formed map from the calibration body to them. -/
+theorem C19_expand_with_detail_wf (l : L) (c : C) (body : List (Node L C)) :
+    ∃ d, expandWithDetail (.exp l c body) = some (leaves body, d) ∧ d.start = 0 ∧
+      d.stop = (leaves body).length ∧ WF body (leaves body) d.entries := by
+  refine ⟨{ start := 0, stop := (leaves body).length, entries := (expBody body 0 0).2 },
+    by simp only [expandWithDetail, expBody_fst], rfl, rfl, ?_⟩
+  have h := exact_wf (expBody_exact (fun _ : L => true) body 0 0 (fun _ _ => rfl))
+  simpa [leaves] using h
+
 /-- non-vacuity: a depth-3 tree without hoisting; the theorem's map is the computed one -/
 example :
     expandProgram (fun (_ : Nat) => false)
